@@ -1,4 +1,4 @@
-import Proofs.Lemmas.LexProc
+import Proofs.Lemmas.LexShebang
 import Model.LexCfg
 /-!
 # C18 — token spans: in bounds, ordered and disjoint, line = number of newlines
@@ -73,23 +73,18 @@ theorem C18_raw_literal {cfg : Cfg} (wf : WF cfg) (inp : Input) (mode : Mode) (t
 
 /-! ### final token list (after `Preprocessor.Process`) -/
 
-/-- no HTML part directly follows a `\` token -/
-def NoSepHtml (cfg : Cfg) (raw : List Tok) : Prop :=
-  Chain (fun (a b : Tok) => ¬ (a.ty = cfg.tNSSEP ∧ b.ty = cfg.tHTML)) raw
+/-- **Final spans.** After the three passes of `Process` (comments dropped,
+`$`+name and `\`+identifier merged, newline → `;`, identifier → variable) every
+top-level token still has a non-empty span inside the source, spans are ordered
+and disjoint, and the line is the number of newlines before the span — for every
+byte string and both modes.
 
-/-- **Final spans (partial).** After the three passes of `Process` (comments
-dropped, `$`+name and `\`+identifier merged, newline → `;`, identifier →
-variable) every top-level token still has a non-empty span inside the source,
-spans are ordered and disjoint, and the line is the number of newlines before
-the span.
-
-Full strength would drop `hno`. It is needed only for the line of an identifier
-merged from a `\kw\kw…` chain one of whose inner components is an HTML part of
-a template (`\ ?>abc<?php \x`): the Go code keeps `lastWasNewline` across the
-HTML part, and the invariant proved for the main loop does not record which
-token that flag stems from. No input violating the law is known. -/
-theorem C18_final_spans_partial {cfg : Cfg} (wf : WF cfg) (wf2 : WF2 cfg) (inp : Input) (mode : Mode)
-    (raw : List Tok) (h : tokenizeRaw cfg inp mode = .ok raw) (hno : NoSepHtml cfg raw) :
+(Until the repair of `isValidIdentifierToken` this needed the hypothesis that no
+HTML part of a template directly follows a `\` token: the HTML text `abc` of
+`<?php \ ?>abc<?php \x` was merged into the identifier `\abc\x`. An HTML part is
+no longer identifier-like — in the code and in the model — and the hypothesis is gone.) -/
+theorem C18_final_spans {cfg : Cfg} (wf : WF cfg) (wf2 : WF2 cfg) (inp : Input) (mode : Mode)
+    (raw : List Tok) (h : tokenizeRaw cfg inp mode = .ok raw) :
     (∀ t ∈ process cfg raw, t.start < t.stop ∧ t.stop ≤ inp.size ∧ t.line = nlCount inp 0 t.start) ∧
     (process cfg raw).Pairwise (fun a b => a.stop ≤ b.start) := by
   have rawok : RawOK cfg inp raw := by
@@ -106,38 +101,53 @@ theorem C18_final_spans_partial {cfg : Cfg} (wf : WF cfg) (wf2 : WF2 cfg) (inp :
         have := h.symm.trans h'
         simpa [tokenizeRaw] using this
       subst this; exact ok
-  have fin := process_ok wf2 inp raw rawok hno
+  have fin := process_ok wf2 inp raw rawok
   exact ⟨fun t ht => ⟨(fin.toks t ht).nonempty, (fin.toks t ht).bound, (fin.toks t ht).line⟩, fin.ordered⟩
 
-/-- the same for the regenerated configuration, as `lexer.Tokenize` / `TokenizeTemplate`
-answer on a source without a shebang line (see `C18_shebang_offset_witness`) -/
-theorem C18_tokenize_spans_partial (inp : Input) (mode : Mode) (ts : List Tok)
-    (h : (tokenize genCfg inp mode).1 = .tokens ts)
-    (hsb : (inp.size ≥ 2 && bAt inp 0 == 35 && bAt inp 1 == 33) = false)
-    (hno : ∀ raw, tokenizeRaw genCfg inp mode = .ok raw → NoSepHtml genCfg raw) :
+/-- **Tokenize-level statement, every input.** For the regenerated configuration, what
+`lexer.Tokenize` / `TokenizeTemplate` answer — including the shebang dispatch, where the rest
+of the file is tokenized and `ShiftTokens` moves the tokens back — obeys the span and line laws
+relative to the whole source. -/
+theorem C18_tokenize_spans (inp : Input) (mode : Mode) (ts : List Tok)
+    (h : (tokenize genCfg inp mode).1 = .tokens ts) :
     (∀ t ∈ ts, t.start < t.stop ∧ t.stop ≤ inp.size ∧ t.line = nlCount inp 0 t.start) ∧
     ts.Pairwise (fun a b => a.stop ≤ b.start) := by
-  obtain ⟨raw, hraw, _⟩ := C18_raw_spans gen_wf inp mode
-  have key := C18_final_spans_partial gen_wf gen_wf2 inp mode raw hraw (hno raw hraw)
-  cases mode with
-  | template =>
-    simp only [tokenize, hraw] at h
-    cases h; exact key
-  | script =>
-    unfold tokenize at h
-    simp only [hsb, Bool.false_eq_true, if_false] at h
-    split at h
-    · simp at h
-    · simp only [hraw] at h
-      cases h; exact key
+  have plain : ∀ (i : Input) (m : Mode) (raw : List Tok), tokenizeRaw genCfg i m = .ok raw →
+      FinOK i (process genCfg raw) := fun i m raw hraw =>
+    let k := C18_final_spans gen_wf gen_wf2 i m raw hraw
+    ⟨fun t ht => ⟨(k.1 t ht).1, (k.1 t ht).2.1, (k.1 t ht).2.2⟩, k.2⟩
+  have fin : FinOK inp ts := by
+    cases mode with
+    | template =>
+      obtain ⟨raw, hraw, _⟩ := C18_raw_spans gen_wf inp .template
+      simp only [tokenize, hraw] at h
+      cases h; exact plain inp .template raw hraw
+    | script =>
+      unfold tokenize at h
+      simp only [] at h
+      split at h
+      · -- shebang
+        split at h
+        · cases h; exact ⟨by simp, List.Pairwise.nil⟩
+        · rename_i nl hnl
+          obtain ⟨raw, hraw, _⟩ := C18_raw_spans gen_wf (inp.extract (nl + 1) inp.size) .template
+          simp only [hraw] at h
+          cases h
+          exact finOK_shift hnl (plain _ .template raw hraw)
+      · split at h
+        · simp at h
+        · obtain ⟨raw, hraw, _⟩ := C18_raw_spans gen_wf inp .script
+          simp only [hraw] at h
+          cases h; exact plain inp .script raw hraw
+  exact ⟨fun t ht => ⟨(fin.toks t ht).nonempty, (fin.toks t ht).bound, (fin.toks t ht).line⟩, fin.ordered⟩
 
 /-! ### known deviations, as proved witnesses on the model (replayed on the real lexer by the harness) -/
 
-/-- a shebang source is tokenized relative to the text after its first line:
-the token `x` of `#!a\nx` is reported at offset 0 on line 0 (it is at offset 4, line 1) -/
-theorem C18_shebang_offset_witness :
-    (tokenize genCfg #[35, 33, 97, 10, 120] .script).2 = 4 ∧
-    ((tokenize genCfg #[35, 33, 97, 10, 120] .script).1.toks.map (fun t => (t.start, t.line))) = [(0, 0)] := by
+/-- a shebang source: the token `x` of `#!a\nx` is reported at offset 4 on line 1 (before the
+repair of `Tokenize` it was reported at offset 0 on line 0, relative to the text after the first line) -/
+theorem C18_shebang_positions :
+    (tokenize genCfg #[35, 33, 97, 10, 120] .script).2 = 0 ∧
+    ((tokenize genCfg #[35, 33, 97, 10, 120] .script).1.toks.map (fun t => (t.start, t.line))) = [(4, 1)] := by
   decide +kernel
 
 /-- `\ App` is merged into one identifier whose text `\App` is not the source text `\ App` -/
@@ -151,11 +161,9 @@ theorem C18_ns_merge_gap_witness :
 /-- `$a=1;\n//c\r\n$b` : the hypotheses of the theorems above are met by a concrete, non-trivial input,
 and the token after the CRLF-terminated comment is on line 2 -/
 example : ∃ raw, tokenizeRaw genCfg #[36, 97, 61, 49, 59, 10, 47, 47, 99, 13, 10, 36, 98] .script = .ok raw ∧
-    raw.length = 10 ∧ (raw.map (·.line)).getLast? = some 2 ∧ NoSepHtml genCfg raw := by
+    raw.length = 10 ∧ (raw.map (·.line)).getLast? = some 2 := by
   refine ⟨[⟨228, 0, 1, 0, [36]⟩, ⟨274, 1, 2, 0, [97]⟩, ⟨200, 2, 3, 0, [61]⟩, ⟨263, 3, 4, 0, [49]⟩,
            ⟨230, 4, 5, 0, [59]⟩, ⟨280, 5, 6, 0, [10]⟩, ⟨276, 6, 10, 1, [47, 47, 99, 13]⟩,
-           ⟨280, 10, 11, 1, [10]⟩, ⟨228, 11, 12, 2, [36]⟩, ⟨274, 12, 13, 2, [98]⟩], by decide +kernel, rfl, rfl, ?_⟩
-  simp [NoSepHtml, Chain, genCfg]
-  decide
+           ⟨280, 10, 11, 1, [10]⟩, ⟨228, 11, 12, 2, [36]⟩, ⟨274, 12, 13, 2, [98]⟩], by decide +kernel, rfl, rfl⟩
 
 end C18
